@@ -318,8 +318,16 @@ def _fmt_where(w):
 # h.psi / h.info to the object and record the caller goes on using.
 
 
+def _loose(h, opts, method=None):
+    """state tolerance of operations that split with the documented default cutoff (1e-10 on the relative discarded
+    weight, i.e. up to 1e-5 on the state per split; <= 15 splits on 8 sites); tight when cutoff=0.0 is requested"""
+    if opts.get("cutoff", None) == 0.0:
+        return max(h.tol, 1e-7) if method == "dm" else h.tol
+    return max(h.tol, 1e-4)
+
+
 def _post(h, ref_expected, psi_after, rec_claim_for=None, value=None, receiver=None, extra_record=None,
-          renorm=False):
+          renorm=False, tol_state=None):
     """common post-condition evaluation.  psi_after: the object the caller goes on using."""
     out = {}
     try:
@@ -344,7 +352,7 @@ def _post(h, ref_expected, psi_after, rec_claim_for=None, value=None, receiver=N
             out["state"] = "state has zero / non-finite norm"
             return out
         got = got / ng
-    out["state"] = close(got, ref_expected, h.tol, "dense state after the operation")
+    out["state"] = close(got, ref_expected, tol_state or h.tol, "dense state after the operation")
     if receiver is not None:
         psi_old, ref_old = receiver
         try:
@@ -565,14 +573,14 @@ def op_gate_multi(h):
         if rng.integers(0, 3) == 0:
             swap_back = False
             opts["swap_back"] = False
-        if rng.integers(0, 3) == 0:
+        if rng.integers(0, 2) == 0:
             opts["cutoff"] = 0.0
     else:
         if rng.integers(0, 2):
             opts["sweep_reverse"] = bool(rng.integers(0, 2))
         if rng.integers(0, 2):
             opts["method"] = str(rng.choice(["direct", "dm", "zipup"]))
-        if rng.integers(0, 4) == 0:
+        if rng.integers(0, 2) == 0:
             opts["cutoff"] = 0.0
     tform = bool(rng.integers(0, 4) == 0)
     params = dict(op="gate_multi", contract=contract, spelling=spelling, where=_fmt_where(where), unitary=unitary,
@@ -591,7 +599,8 @@ def op_gate_multi(h):
         if not swap_back:
             m, M = min(where), max(where)
             exp = np.moveaxis(exp, M, m + 1)
-        return _post(h, exp, psi if inplace else r, receiver=None if inplace else (psi, ref), renorm=not unitary)
+        return _post(h, exp, psi if inplace else r, receiver=None if inplace else (psi, ref), renorm=not unitary,
+                     tol_state=_loose(h, opts, opts.get("method")))
 
     return params, run, ("record", "flags", "state")
 
@@ -609,7 +618,7 @@ def op_gate_split(h):
     absorb = str(rng.choice(["left", "right", "both", "default"]))
     spelling = str(rng.choice(["gate_split", "gate_split_"]))
     opts = {} if absorb == "default" else {"absorb": absorb}
-    if rng.integers(0, 3) == 0:
+    if rng.integers(0, 2) == 0:
         opts["cutoff"] = 0.0
     # which site holds the non-isometric factor afterwards (documented meaning of absorb for split(left | right))
     if absorb == "left":
@@ -634,7 +643,7 @@ def op_gate_split(h):
             return {"state": "in-place spelling returned a different object"}
         h.info["cur_orthog"] = newrec
         return _post(h, apply_op(ref, G, where), psi if inplace else r, receiver=None if inplace else (psi, ref),
-                     renorm=not unitary)
+                     renorm=not unitary, tol_state=_loose(h, opts))
 
     return params, run, ("record", "flags", "state")
 
@@ -651,7 +660,7 @@ def op_auto_swap(h):
     swap_back = bool(rng.integers(0, 2))
     spelling = str(rng.choice(["gate_with_auto_swap", "gate_with_auto_swap_"]))
     mode, kw = h.rec_kwargs(legacy_ok=True)
-    opts = {"cutoff": 0.0} if rng.integers(0, 3) == 0 else {}
+    opts = {"cutoff": 0.0} if rng.integers(0, 2) == 0 else {}
     params = dict(op="gate_with_auto_swap", spelling=spelling, where=_fmt_where(where), swap_back=swap_back,
                   unitary=unitary, rec=mode, opts=str(sorted(opts.items())))
 
@@ -666,7 +675,8 @@ def op_auto_swap(h):
         if not swap_back:
             m, M = min(where), max(where)
             exp = np.moveaxis(exp, M, m + 1)
-        return _post(h, exp, psi if inplace else r, receiver=None if inplace else (psi, ref), renorm=not unitary)
+        return _post(h, exp, psi if inplace else r, receiver=None if inplace else (psi, ref), renorm=not unitary,
+                     tol_state=_loose(h, opts))
 
     return params, run, ("record", "flags", "state")
 
@@ -733,7 +743,7 @@ def op_submpo(h):
         opts["sweep_reverse"] = bool(rng.integers(0, 2))
     if rng.integers(0, 2):
         opts["method"] = str(rng.choice(["direct", "dm", "zipup"]))
-    if rng.integers(0, 4) == 0:
+    if rng.integers(0, 2) == 0:
         opts["cutoff"] = 0.0
     if give_where:
         opts["where"] = sites if rng.integers(0, 2) else sites[::-1]
@@ -758,7 +768,7 @@ def op_submpo(h):
             return None
 
         return _post(h, exp, psi if inplace else r, receiver=None if inplace else (psi, ref), renorm=True,
-                     extra_record=placed)
+                     extra_record=placed, tol_state=_loose(h, opts, opts.get("method")))
 
     return params, run, ("record", "flags", "state")
 
@@ -783,7 +793,7 @@ def op_nonlocal(h):
         opts["sweep_reverse"] = bool(rng.integers(0, 2))
     if rng.integers(0, 2):
         opts["method"] = str(rng.choice(["direct", "dm", "zipup"]))
-    if rng.integers(0, 4) == 0:
+    if rng.integers(0, 2) == 0:
         opts["cutoff"] = 0.0
     if rng.integers(0, 4) == 0:
         opts["dims"] = tuple(dims[w] for w in where)
@@ -798,7 +808,8 @@ def op_nonlocal(h):
         if inplace and r is not psi:
             return {"state": "in-place spelling returned a different object"}
         exp = apply_op(ref, _up(G).T if transpose else G, where)
-        return _post(h, exp, psi if inplace else r, receiver=None if inplace else (psi, ref), renorm=True)
+        return _post(h, exp, psi if inplace else r, receiver=None if inplace else (psi, ref), renorm=True,
+                     tol_state=_loose(h, opts, opts.get("method")))
 
     return params, run, ("record", "flags", "state")
 
@@ -813,7 +824,7 @@ def op_swap(h):
     spelling = str(rng.choice(["swap_sites_with_compress", "swap_sites_with_compress_"]))
     mode, kw = h.rec_kwargs(legacy_ok=True)
     opts = {} if absorb == "default" else {"absorb": absorb}
-    if rng.integers(0, 3) == 0:
+    if rng.integers(0, 2) == 0:
         opts["cutoff"] = 0.0
     params = dict(op="swap_sites_with_compress", spelling=spelling, i=i, j=j, adjacent=adjacent, absorb=absorb, rec=mode,
                   opts=str(sorted(opts.items())))
@@ -825,7 +836,8 @@ def op_swap(h):
         inplace = spelling.endswith("_")
         if inplace and r is not psi:
             return {"state": "in-place spelling returned a different object"}
-        return _post(h, np.swapaxes(ref, i, j), psi if inplace else r, receiver=None if inplace else (psi, ref))
+        return _post(h, np.swapaxes(ref, i, j), psi if inplace else r, receiver=None if inplace else (psi, ref),
+                     tol_state=_loose(h, opts))
 
     return params, run, ("record", "flags", "state")
 
@@ -837,7 +849,7 @@ def op_swap_to(h):
     i, f = (int(x) for x in rng.integers(0, L, size=2))
     spelling = str(rng.choice(["swap_site_to", "swap_site_to_"]))
     mode, kw = h.rec_kwargs(legacy_ok=True)
-    opts = {"cutoff": 0.0} if rng.integers(0, 3) == 0 else {}
+    opts = {"cutoff": 0.0} if rng.integers(0, 2) == 0 else {}
     params = dict(op="swap_site_to", spelling=spelling, i=i, f=f, rec=mode, opts=str(sorted(opts.items())))
 
     def run():
@@ -847,7 +859,8 @@ def op_swap_to(h):
         inplace = spelling.endswith("_")
         if inplace and r is not psi:
             return {"state": "in-place spelling returned a different object"}
-        return _post(h, np.moveaxis(ref, i, f), psi if inplace else r, receiver=None if inplace else (psi, ref))
+        return _post(h, np.moveaxis(ref, i, f), psi if inplace else r, receiver=None if inplace else (psi, ref),
+                     tol_state=_loose(h, opts))
 
     return params, run, ("record", "flags", "state")
 
@@ -864,7 +877,7 @@ def op_compress_site(h):
         canonize = True
         mode, kw = h.rec_kwargs(legacy_ok=True)
     opts = {}
-    if rng.integers(0, 3) == 0:
+    if rng.integers(0, 2) == 0:
         opts["cutoff"] = 0.0
     if rng.integers(0, 3) == 0:
         opts["max_bond"] = 64
@@ -883,7 +896,7 @@ def op_compress_site(h):
             if rec2 is not None and not (max(0, i - 1) <= rec2[0] and rec2[1] <= min(L - 1, i + 1)):
                 return f"record {rec2} not within one site of {i}"
 
-        return _post(h, ref, psi, extra_record=near)
+        return _post(h, ref, psi, extra_record=near, tol_state=_loose(h, opts))
 
     return params, run, ("record", "flags", "state")
 
@@ -1474,6 +1487,8 @@ def circuit_record(cx):
                     if isinstance(circ, qtn.CircuitMPSLazy):
                         circ._compress()  # the documented flush; its record is checked below as well
                     ref = _psi_dense_logical(circ)
+                    if np.linalg.norm(ref) < 1e-3:
+                        return None  # truncation (max_bond) annihilated the state: nothing to compare
                     got = circ.local_expectation(G, where, **kw)
                     rho = rdm(ref, qs)
                     if kw.get("normalized", False):
@@ -1493,6 +1508,8 @@ def circuit_record(cx):
                     if isinstance(circ, qtn.CircuitMPSLazy):
                         circ._compress()
                     ref = _psi_dense_logical(circ)
+                    if np.linalg.norm(ref) < 1e-3:
+                        return None  # truncation (max_bond) annihilated the state: nothing to sample
                     prob = np.abs(ref) ** 2
                     prob = prob / prob.sum()
                     it = circ.sample(C, seed=seed, **kw)
